@@ -91,6 +91,9 @@ def binary_run(inst, codes):
     try:
         out = os.path.join(d, 'argv.jsonl')
         line = line_of(inst, codes)
+        # natively every pipeline also receives `$?` as a third argument, so the status each one SEES is observable
+        import re as _re
+        line = _re.sub(r'(st c\d+ \d+)', r'\1 $?', line)
         env = {'HOME': '/home/u', 'PATH': HELPERS, 'ARGV_OUT': out, 'LANG': 'C.UTF-8'}
         try:
             p = subprocess.run([CICADA, '-c', line], cwd=d, env=env, stdin=subprocess.DEVNULL, stdout=subprocess.PIPE, stderr=subprocess.PIPE, timeout=20)
@@ -98,7 +101,8 @@ def binary_run(inst, codes):
             return dict(line=line, hang=True)
         recs = [json.loads(x) for x in open(out)] if os.path.exists(out) else []
         got = [int(r['argv'][1][1:]) for r in recs if r['name'] == 'st']
-        return dict(line=line, trace=got, exit=p.returncode)
+        seen = [int(r['argv'][3]) if len(r['argv']) > 3 and r['argv'][3].isdigit() else None for r in recs if r['name'] == 'st']
+        return dict(line=line, trace=got, seen=seen, exit=p.returncode)
     finally:
         shutil.rmtree(d, ignore_errors=True)
 
@@ -117,7 +121,9 @@ def replay(v):
     r = binary_run(inst, codes)
     want_trace, want_status = ref_concrete(inst, codes)
     r['expected_trace'] = want_trace; r['expected_exit'] = want_status
-    r['reproduced'] = bool(r.get('hang')) or r.get('trace') != want_trace or r.get('exit') != want_status
+    want_seen = [0] + [codes[i] for i in want_trace[:-1]]
+    r['expected_seen'] = want_seen
+    r['reproduced'] = bool(r.get('hang')) or r.get('trace') != want_trace or r.get('exit') != want_status or (r.get('trace') == want_trace and r.get('seen') != want_seen)
     r['witness'] = r['line']
     return r
 
